@@ -19,7 +19,7 @@ import elementpath.aliases as ta
 
 from elementpath.namespaces import XML_ID, XML_LANG
 from elementpath.datatypes import AnyURI, Float, DayTimeDuration, YearMonthDuration, \
-    StringProxy, AnyAtomicType, Duration
+    StringProxy, AnyAtomicType, Duration, UntypedAtomic
 from elementpath.helpers import collapse_white_spaces, get_double, round_number
 from elementpath.xpath_nodes import XPathNode, ElementNode, TextNode, CommentNode, \
     ProcessingInstructionNode, DocumentNode, EtreeElementNode
@@ -300,9 +300,11 @@ def evaluate__substring(self: XPathFunction, context: ta.ContextType = None) -> 
     item: str = self.get_argument(context, default='', cls=str)
     try:
         start = self.get_argument(context, index=1, required=True)
+        if isinstance(start, UntypedAtomic):
+            start = float(start)  # function conversion rules
         if math.isnan(start) or math.isinf(start):
             return ''
-    except TypeError:
+    except (TypeError, ValueError):
         if isinstance(context, XPathSchemaContext):
             start = 0
         else:
@@ -315,9 +317,11 @@ def evaluate__substring(self: XPathFunction, context: ta.ContextType = None) -> 
     else:
         try:
             length = self.get_argument(context, index=2, required=True)
+            if isinstance(length, UntypedAtomic):
+                length = float(length)  # function conversion rules
             if math.isnan(length) or length <= 0:
                 return ''
-        except TypeError:
+        except (TypeError, ValueError):
             if isinstance(context, XPathSchemaContext):
                 length = len(item)
             else:
